@@ -64,7 +64,7 @@ fn events_of(spec: &GraphSpec, s: &Arc<dyn Sampler>, op: &Op) -> u64 {
     use crate::model::{exec_op, ClientState, Env};
     let env = Env {
         spec: spec.clone(),
-        shared: std::sync::Mutex::new(s.clone()),
+        shared: std::sync::Mutex::new((s.clone(), false)),
         disk: std::sync::Mutex::new(None),
         restarts_published: std::sync::Mutex::new(0),
     };
